@@ -374,6 +374,8 @@ func init() {
 		},
 		// ---- strings / strconv ----
 		"strings.TrimSpace": modelTrimSpace,
+		"strings.ToLower":   func(e *Exec, c *frame, fn *ssa.Function, a []Value) Value { return modelCaseMap(e, a, true) },
+		"strings.ToUpper":   func(e *Exec, c *frame, fn *ssa.Function, a []Value) Value { return modelCaseMap(e, a, false) },
 		"strconv.Itoa":      modelItoa,
 		"strconv.Atoi":      modelAtoi,
 
@@ -567,6 +569,35 @@ func modelIndexByte(e *Exec, c *frame, fn *ssa.Function, a []Value) Value {
 		}
 	}
 	return i64(-1)
+}
+
+// ---- strings.ToLower / ToUpper: ASCII strings only (a string with a byte
+// >= 0x80 is outside the model: unsupported) ----
+
+func modelCaseMap(e *Exec, a []Value, lower bool) Value {
+	s := a[0].(Slice)
+	n := e.ConcInt(s.Len)
+	if n == 0 {
+		return s
+	}
+	nonASCII := sym.Bool(false)
+	for i := 0; i < n; i++ {
+		nonASCII = sym.Or(nonASCII, sym.Ule(sym.Const(8, 0x80), s.St.peek(e.o(s)+i).(sym.Sc)))
+	}
+	if e.Branch(e.norm(nonASCII)) {
+		e.unsupported("strings.ToLower/ToUpper of a string with a non-ASCII byte")
+	}
+	lo, hi, delta := byte('A'), byte('Z'), uint64(32)
+	if !lower {
+		lo, hi, delta = 'a', 'z', uint64(256-32)
+	}
+	st := e.newStore(byteT, i64(n))
+	for i := 0; i < n; i++ {
+		b := s.St.peek(e.o(s) + i).(sym.Sc)
+		in := sym.And(sym.Ule(sym.Const(8, uint64(lo)), b), sym.Ule(b, sym.Const(8, uint64(hi))))
+		*st.cell(i) = e.norm(sym.Ite(in, sym.Add(b, sym.Const(8, delta)), b))
+	}
+	return Slice{St: st, Len: st.N, Cap: st.N}
 }
 
 // ---- strings.TrimSpace: ASCII white space only (bytes >= 0x80 are kept;
